@@ -347,7 +347,8 @@ def check_values(case, io):
             got = shown.get(e["dump"])
             if got is None:
                 code = ("[fstring-internals-not-listed] " if e["in_fstring"] else
-                        "[comprehension-in-first-iterable-not-listed] " if (e["in_first_iter"] and e["kind"] in ("ListComp", "SetComp", "DictComp")) else "")
+                        "[comprehension-in-first-iterable-not-listed] " if (e["in_first_iter"] and any(
+                            t in e["dump"] for t in ("ListComp(", "SetComp(", "DictComp("))) else "")
                 fails.append("%s%s (evaluated by Python to %s) has no line" % (code, e["text"], e["rendered"]))
             elif got != e["rendered"] and not (got.startswith("False, e.g., with") and e["rendered"] == "False"):
                 if got not in [x["rendered"] for x in ev_by_dump[e["dump"]]]:
